@@ -252,7 +252,7 @@ func jobsFor(prop, tier string) []job {
 	}
 	cap := 400000
 	if big {
-		cap = 6000000
+		cap = 1500000
 	}
 	switch prop {
 	case "C01":
